@@ -9,7 +9,7 @@ use crate::rt::{self, run_dna, run_enum};
 /// the same bytes through different, equally legitimate ways of calling the reader
 fn read_variant(bytes: &[u8], variant: usize) -> rt::Out<peppi::game::immutable::Game> {
 	use std::io::{BufReader, Cursor};
-	if variant % 23 == 11 && bytes.len() <= 8192 {
+	if variant % 23 == 11 && bytes.len() <= 8192 && rt::debug_budget_take() {
 		// the `debug` option must not change what is parsed
 		return rt::with_debug_dir(|dir| {
 			let o = peppi::io::slippi::de::Opts { skip_frames: false, compute_hash: false, debug: Some(peppi::io::slippi::de::Debug { dir: dir.to_path_buf() }) };
